@@ -5,7 +5,7 @@
 # 3. the library's whole test suite builds and passes with the patch
 # On success the change is copied to /verif/seeded/<PROP>-<K>/ (patch.diff, demo.cpp, meta.json + confirmation record).
 set -u
-P=$1; K=$2; WT=${3:-/tmp/wt/$P}; SRC=/tmp/seed/$P/$K
+P=$1; K=$2; WT=${3:-/tmp/wt/$P}; SRC=${SRCROOT:-/tmp/seed}/$P/$K
 [ -f "$SRC/patch.diff" ] || { echo "no patch in $SRC"; exit 2; }
 git -C "$WT" checkout -q -- . || exit 2
 [ "$(git -C "$WT" rev-parse HEAD)" = "$(git -C /repo rev-parse HEAD)" ] || { echo "worktree not at /repo HEAD"; exit 2; }
@@ -32,7 +32,7 @@ echo "suite with patch: build=$BR $CT"
 OK=0
 [ $RB -eq 0 ] && [ $RA -ne 0 ] && [ $BR -eq 0 ] && echo "$CT" | grep -q '100% tests passed, 0 tests failed out of 261' && OK=1
 if [ $OK -eq 1 ]; then
-  T=/verif/seeded/$P-$K; mkdir -p "$T"
+  T=/verif/seeded/$P-${DESTK:-$K}; mkdir -p "$T"
   cp "$SRC/patch.diff" "$SRC/demo.cpp" "$T/"
   python3 - "$SRC/meta.json" "$T/meta.json" "$P" "$RB" "$RA" "$CT" "$D/out_after.txt" <<'PY'
 import json,sys
